@@ -71,6 +71,7 @@ pub struct ReqLog {
 
 pub struct Server {
     pub port: u16,
+    pub ip: String,
     pub log: Arc<Mutex<Vec<ReqLog>>>,
     stop: Arc<AtomicBool>,
     thread: Option<std::thread::JoinHandle<()>>,
@@ -236,7 +237,25 @@ fn handle(mut s: TcpStream, data: &Arc<Vec<u8>>, script: &Script, index: usize, 
 
 impl Server {
     pub fn start(data: Arc<Vec<u8>>, script: Script) -> Server {
-        let listener = TcpListener::bind("127.0.0.1:0").expect("bind");
+        // Every server gets its own loopback address (all of 127.0.0.0/8 is local on Linux): thousands of short
+        // connections leave TIME_WAIT sockets behind, and with a single address the ephemeral ports run out.
+        static COUNTER: std::sync::atomic::AtomicU32 = std::sync::atomic::AtomicU32::new(0);
+        let mut attempt = 0;
+        let (listener, ip) = loop {
+            let n = COUNTER.fetch_add(1, Ordering::Relaxed);
+            let pid = std::process::id();
+            let ip = format!("127.{}.{}.{}", 1 + (pid % 250), 1 + ((n / 250) % 250), 1 + (n % 250));
+            match TcpListener::bind((ip.as_str(), 0)) {
+                Ok(l) => break (l, ip),
+                Err(e) => {
+                    attempt += 1;
+                    if attempt > 200 {
+                        panic!("harness: cannot bind a loopback listener: {}", e);
+                    }
+                    std::thread::sleep(std::time::Duration::from_millis(5 * attempt));
+                }
+            }
+        };
         let port = listener.local_addr().unwrap().port();
         let log = Arc::new(Mutex::new(vec![]));
         let stop = Arc::new(AtomicBool::new(false));
@@ -257,10 +276,10 @@ impl Server {
                 }
             }
         });
-        Server { port, log, stop, thread: Some(thread) }
+        Server { port, ip, log, stop, thread: Some(thread) }
     }
     pub fn url(&self) -> String {
-        format!("http://127.0.0.1:{}/archive.cba", self.port)
+        format!("http://{}:{}/archive.cba", self.ip, self.port)
     }
     pub fn requests(&self) -> Vec<ReqLog> {
         self.log.lock().unwrap().clone()
@@ -269,7 +288,7 @@ impl Server {
 impl Drop for Server {
     fn drop(&mut self) {
         self.stop.store(true, Ordering::SeqCst);
-        let _ = TcpStream::connect(("127.0.0.1", self.port));
+        let _ = TcpStream::connect((self.ip.as_str(), self.port));
         if let Some(t) = self.thread.take() {
             let _ = t.join();
         }
